@@ -183,8 +183,9 @@ def decode(out):
         if k == 10:
             return {"leaf": tok()}
         if k == 11:
+            lo = nxt(); hi = nxt()
             e = err(); n = nxt()
-            return {"err": e, "dropped": [tok() for _ in range(n)]}
+            return {"err": e, "dropped": [tok() for _ in range(n)], "lo": lo, "hi": hi}
         p = nxt(); n = nxt()
         return {"p": p, "kids": [tree() for _ in range(n)]}
     k = nxt()
@@ -197,6 +198,9 @@ def decode(out):
     else:
         res = {"kind": "budget"}
     res["pulled"] = nxt()
-    res["log"] = [nxt() for _ in range(nxt())]   # pulls as -(i+1), actions as production index
-    res["acts"] = [x % 1000000 for x in res["log"] if x >= 0]
+    n = nxt()
+    ev = [(nxt(), nxt(), nxt()) for _ in range(n)]
+    res["log"] = [e[0] for e in ev]   # pulls as -(i+1), actions as production index (+1000000 when failing)
+    res["acts"] = [e[0] % 1000000 for e in ev if e[0] >= 0]
+    res["spans"] = [(e[0], e[1], e[2]) for e in ev if 0 <= e[0] < 1000000]
     return res
